@@ -61,6 +61,8 @@ THEOREMS = [
     'C02_split_surface_render',
     'C02_to_float_denotes',
     'C02_text_every_card_locus_sense_linked',
+    'C02_text_every_card_all_mnemonics_linked',
+    'C02_torus_tr_linked',
     'C02_frame_form_sense_linked',
     'C02_spec_sanity',
     'C02_sense_value_sign',
